@@ -119,8 +119,9 @@ package pubsub
 //@            t in ps.params.Topics && tsTable[ps.peerStats[q].topics[t]] == ps.peerStats[q].topics && tsTopic[ps.peerStats[q].topics[t]] == t)
 
 //@ monitor peerScore.Mutex
-//@   protects map(peerStats), all(peerStats), all(topicStats), allmaps(map[string]*topicStats)
+//@   protects map(peerStats), all(peerStats), all(topicStats), allmaps(map[string]*topicStats), all(deliveryRecord), all(messageDeliveries), allmaps(map[string]*deliveryRecord)
 //@   invariant rep: scoreSep(self)
+//@   invariant records: drRep(self.deliveries)
 
 // getTopicStats: the existing counters, or fresh zero counters for a scored topic.
 //@ func (*peerStats).getTopicStats
@@ -247,11 +248,19 @@ package pubsub
 // mesh-delivery credit iff it was valid; nothing while undecided, ignored or throttled.
 //@ func (*peerScore).DuplicateMessage
 //@   property C04 C10
-//@   requires msg: msg != nil
+//@   requires msg: msg != nil && msg.Message != nil && ps.idGen != nil
 //@   noframe
 //@   ensures penalty-iff-invalid: nInvalid() == ite(lastret((*messageDeliveries).getRecord).status == deliveryInvalid &&
 //@        calls((*peerScore).markInvalidMessageDelivery) > old(calls((*peerScore).markInvalidMessageDelivery)), 1, 0)
 //@   ensures at-most-one: nInvalid() <= 1 && calls((*peerScore).markDuplicateMessageDelivery) - old(calls((*peerScore).markDuplicateMessageDelivery)) <= 1
+//@   at call markDuplicateMessageDelivery assert valid-message-with-its-validation-time: $arg1 == msg.ReceivedFrom && $arg2 == msg &&
+//@        drStatusSeen[drec] == deliveryValid && $arg3 == drec.validated
+//@   at call markDuplicateMessageDelivery assert first-duplicate-from-this-peer: !lin($arg1 in drec.peers)
+//@   ensures credit-iff-valid-and-new: calls((*peerScore).markDuplicateMessageDelivery) - old(calls((*peerScore).markDuplicateMessageDelivery)) ==
+//@        ite(drStatusSeen[lastret((*messageDeliveries).getRecord)] == deliveryValid && calls((*peerScore).markDuplicateMessageDelivery) > old(calls((*peerScore).markDuplicateMessageDelivery)), 1, 0)
+//@   ensures remembered: (drStatusSeen[lastret((*messageDeliveries).getRecord)] == deliveryValid || drStatusSeen[lastret((*messageDeliveries).getRecord)] == deliveryUnknown) ==>
+//@        msg.ReceivedFrom in lastret((*messageDeliveries).getRecord).peers
+//@   ensures status-untouched: lastret((*messageDeliveries).getRecord).status == drStatusSeen[lastret((*messageDeliveries).getRecord)]
 //@   ensures released: !held(ps.Mutex)
 
 // OnClosedOutboundStream (retention): a positive score is dropped with the peer's statistics; a
@@ -347,4 +356,71 @@ package pubsub
 //@        decayedStats(ps, lin(ps.peerStats[q].topics[t]), t)
 //@   ensures penalty-decayed: forall q string :: lin(q in ps.peerStats) && lin(ps.peerStats[q].connected) ==>
 //@        lin(ps.peerStats[q]).behaviourPenalty == dz(ps, lin(ps.peerStats[q].behaviourPenalty) * ps.params.BehaviourPenaltyDecay)
+//@   ensures released: !held(ps.Mutex)
+
+// ---- C10: P6, the IP colocation surplus ----
+//
+// ipColocationFactor adds, for each of the peer's IPs, either nothing or the square of the number
+// of peers on that IP in excess of the threshold; with no whitelist configured the square is
+// added exactly for the IPs above the threshold. The factor is never negative (so, the weight
+// being validated as non-positive, the component can only lower the score) and 0 for an unknown peer.
+//@ func (*peerScore).ipColocationFactor
+//@   property C10
+//@   rmul-signs
+//@   requires params: ps.params != nil && (forall q string :: q in ps.peerStats ==> ps.peerStats[q] != nil)
+//@   noframe
+//@   loop 1 invariant never-negative: result >= 0.0 && ps.params == old(ps.params) && ps.peerIPs == old(ps.peerIPs) &&
+//@        ps.params.IPColocationFactorThreshold == old(ps.params.IPColocationFactorThreshold) && len(ps.params.IPColocationFactorWhitelist) == old(len(ps.params.IPColocationFactorWhitelist))
+//@   loop 1 step per-ip-term: result == prev(result) || (len(ps.peerIPs[ip]) > ps.params.IPColocationFactorThreshold &&
+//@        result == prev(result) + real(len(ps.peerIPs[ip]) - ps.params.IPColocationFactorThreshold) * real(len(ps.peerIPs[ip]) - ps.params.IPColocationFactorThreshold))
+//@   loop 1 step counted-when-no-whitelist: iter(len(ps.params.IPColocationFactorWhitelist)) == 0 && len(ps.peerIPs[ip]) > ps.params.IPColocationFactorThreshold ==>
+//@        result == prev(result) + real(len(ps.peerIPs[ip]) - ps.params.IPColocationFactorThreshold) * real(len(ps.peerIPs[ip]) - ps.params.IPColocationFactorThreshold)
+//@   loop 1 step below-threshold-free: !(len(ps.peerIPs[ip]) > ps.params.IPColocationFactorThreshold) ==> result == prev(result)
+//@   ensures unknown-peer: !old(p in ps.peerStats) ==> result == 0.0
+//@   ensures never-negative: result >= 0.0
+
+// ---- C10: delivery records and the delivery window ----
+//
+// drRep: every indexed record exists, and while a message is undecided or valid its set of
+// forwarders is there to be written to (RejectMessage releases it for the other outcomes).
+// getRecord returns the record of a message ID, creating it (status unknown, no forwarders,
+// first seen now) the first time the ID is mentioned.
+//@ spec fn drRep(d *messageDeliveries) bool = d != nil && d.records != nil &&
+//@      (forall k string :: k in d.records ==> d.records[k] != nil && allocated(d.records[k]) &&
+//@            (d.records[k].status == deliveryUnknown || d.records[k].status == deliveryValid ==> d.records[k].peers != nil && allocated(d.records[k].peers)))
+// drStatusSeen[r]: the status record r had when getRecord last handed it out (definitional ghost).
+//@ ghost var drStatusSeen mmap[ref]int
+//@ func (*messageDeliveries).getRecord
+//@   property C10
+//@   requires rep: drRep(d)
+//@   noframe
+//@   modifies drStatusSeen
+//@   ghost-effect handed-out: drStatusSeen[result] == result.status && (forall o ref :: o != result ==> drStatusSeen[o] == old(drStatusSeen[o]))
+//@   ensures known-id: old(id in d.records) ==> result == old(d.records[id]) && result.status == old(d.records[id].status) && result.peers == old(d.records[id].peers) &&
+//@        result.validated == old(d.records[id].validated)
+//@   ensures new-id: !old(id in d.records) ==> fresh(result) && result.status == deliveryUnknown && result.peers != nil && fresh(result.peers) && len(result.peers) == 0 &&
+//@        (forall q string :: !(q in result.peers))
+//@   ensures indexed: id in d.records && d.records[id] == result && result != nil
+//@   ensures others: forall k string :: k != id ==> (k in d.records) == old(k in d.records) && d.records[k] == old(d.records[k])
+//@   ensures records-untouched: forall r *deliveryRecord :: old(allocated(r)) ==> r.status == old(r.status) && r.peers == old(r.peers) && r.validated == old(r.validated)
+//@   ensures forwarders-untouched: forall m map[peer.ID]struct{}, q string :: old(allocated(m)) ==> (q in m) == old(q in m)
+//@   ensures rep: drRep(d)
+
+// DeliverMessage: the forwarder gets the first-delivery credit; the message's record becomes
+// valid (validated now) and every OTHER peer that had already forwarded it while it was being
+// validated gets a mesh-delivery credit that is always inside the window (zero validation time);
+// nothing is credited twice: an already decided record credits nobody but the forwarder.
+//@ func (*peerScore).DeliverMessage
+//@   property C10
+//@   requires msg: msg != nil && msg.Message != nil && ps.idGen != nil
+//@   noframe
+//@   loop 1 invariant crediting: held(ps.Mutex) && scoreSep(ps) && drec == lastret((*messageDeliveries).getRecord)
+//@   at call markFirstMessageDelivery assert forwarder-credited: $arg1 == msg.ReceivedFrom && $arg2 == topicOf(msg)
+//@   at call markDuplicateMessageDelivery assert early-forwarders-inside-window: $arg1 != msg.ReceivedFrom && $arg1 in drec.peers && $arg2 == msg && $arg3 == 0
+//@   ensures one-first-delivery: calls((*peerScore).markFirstMessageDelivery) == old(calls((*peerScore).markFirstMessageDelivery)) + 1
+//@   ensures decided-record-credits-nobody-else: drStatusSeen[lastret((*messageDeliveries).getRecord)] != deliveryUnknown ==>
+//@        calls((*peerScore).markDuplicateMessageDelivery) == old(calls((*peerScore).markDuplicateMessageDelivery)) &&
+//@        lastret((*messageDeliveries).getRecord).status == drStatusSeen[lastret((*messageDeliveries).getRecord)]
+//@   ensures undecided-record-becomes-valid: drStatusSeen[lastret((*messageDeliveries).getRecord)] == deliveryUnknown ==>
+//@        lastret((*messageDeliveries).getRecord).status == deliveryValid && lastret((*messageDeliveries).getRecord).validated == lastret(time.Now)
 //@   ensures released: !held(ps.Mutex)
